@@ -90,7 +90,8 @@ func init() {
 	Register(&Prop{
 		ID:    "C08",
 		Title: "A multi-dimensional FROM applies the query inside every inner array",
-		Rule: "rapid draws a document key holding arrays of arrays of objects (depth 2-3, ragged, empty inner arrays, a fifth of the documents with levels of 4-13 inner arrays; in a third of the documents one leaf array is derived from another leaf: an identical copy, or a look-alike whose values are of another kind but print the same - 7 / '7', true / 'true', null / '<nil>', a text that swallows the next key), a select list (columns, " +
+		Rule: "[Dimensions added in rounds p-r of the seeded-defect evaluation: in a third of the cases inner arrays with equal content are one and the same Go slice in the document handed to the engine; a sixth of the rows hold a decoy key spelled like a path.] " +
+			"rapid draws a document key holding arrays of arrays of objects (depth 2-3, ragged, empty inner arrays, a fifth of the documents with levels of 4-13 inner arrays; in a third of the documents one leaf array is derived from another leaf: an identical copy, or a look-alike whose values are of another kind but print the same - 7 / '7', true / 'true', null / '<nil>', a text that swallows the next key), a select list (columns, " +
 			"simple expressions, optional *), an optional WHERE and, in half of the cases, a back reference to siblings of the source in the enclosing " +
 			"document (`<-.lim` in a comparison, IN / [NOT] EXISTS / select-item subqueries over `<-allow`) or a read of the query's own options (GETVAR / CONSTANT under WithVars / WithConstants, in WHERE or as a select item); oracle: the result has the same nesting and each leaf array's result equals the " +
 			"execution of the same query on the document with that leaf in place of nn; FROM `mix=>nn` equals the concatenation of the leaf results in order. Non-trivial: >=2 " +
